@@ -154,10 +154,18 @@ func (s *rstate) module(t *gen.Template) error {
 	defer func() { s.name = saved }()
 	s.name = pname
 	s.chain = append(s.chain, chainEntry{pname, collectBlocks(pt.Body, pname)})
-	// only use statements of the child take effect; everything else outside blocks is ignored
+	// of what a child has outside its blocks, the statements that define something take effect before the parent
+	// is rendered: use, macro definitions, imports and assignments; everything else is ignored
 	for _, n := range t.Body {
-		if u, ok := n.(*gen.NUse); ok {
+		switch u := n.(type) {
+		case *gen.NUse:
 			if err := s.use(u); err != nil {
+				return err
+			}
+		case *gen.NMacro:
+			s.localMacros[u.Name] = macroRef{u, t.Name}
+		case *gen.NImport, *gen.NFrom, *gen.NSet, *gen.NSetCap:
+			if err := s.node(n); err != nil {
 				return err
 			}
 		}
